@@ -331,6 +331,10 @@ def check_edges_and_held(res, facts, prop):
                         res.ob('R-FRAME', 'handled:' + inst + '|returns', True, 'no panic on this path', where_of(facts, RX + '::parse'), key='R-FRAME:handled:' + inst, nontrivial=False)
                         res.ob('R-FRAME', 'handled:' + inst + '|parser state untouched by the handlers', same(pre.get('parser'), post.get('parser')),
                                'the receiver overwrote its byte parser (%r): running status / partial messages are lost' % (post.get('parser'),), where_of(facts, RX + '::parse'), key='R-FRAME:parser:' + inst)
+                        # "... and applying only the supported messages": the note / All-Notes-Off semantics themselves
+                        if mname in ('note_on', 'note_on_vel0', 'note_off', 'all_notes_off'):
+                            edge_obligations(res, facts, inst, ps, mname, pre, post, o)
+                            held_obligations(res, facts, inst, ps, mname, prio, pre, post, o, msg)
                     elif prop == 'C05':
                         edge_obligations(res, facts, inst, ps, mname, pre, post, o)
                     else:
@@ -351,6 +355,12 @@ def edge_obligations(res, facts, inst, ps, mname, pre, post, o):
     """C05 transition table"""
     ctx = o.ctx
     empty_after, lst = post_len_class(o, post)
+    g_ = bool_of(ctx, post.get('gate'))
+    if empty_after is not None and g_ is not None:
+        # the pre-states assume gate <=> held list non-empty: re-established here (a stale list makes the next note-on
+        # look like a second key and swallows its rising edge)
+        res.ob('R-HELD-INV', inst + '|gate<=>nonempty', g_ == (not empty_after), 'gate=%s, list empty=%s' % (g_, empty_after),
+               where_of(facts, RX + '::parse'), key='R-HELD-INV:%s' % inst)
     rxf_ = Rx(facts)
     g = bool_of(ctx, post.get('gate'))
     r, f = rxf_.latch(ctx, post, 'rising_gate'), rxf_.latch(ctx, post, 'falling_gate')
@@ -721,7 +731,8 @@ SUPPORTED = {'NoteOff', 'NoteOn', 'ControlChange', 'PitchBendChange'}
 CHANNEL_KINDS = {'NoteOff', 'NoteOn', 'KeyPressure', 'ControlChange', 'ProgramChange', 'ChannelPressure', 'PitchBendChange'}
 
 
-def check_frame(res, facts):
+def check_frame(res, facts, kinds=None):
+    """kinds: restrict part (a) to these message variants (None = all, plus 'no message')"""
     rxf = Rx(facts)
     where = where_of(facts, RX + '::parse')
     names = variant_names(facts, MSG)
@@ -736,6 +747,8 @@ def check_frame(res, facts):
                 cases.append((k + '@listened', k, 'listened'))
         else:
             cases.append((k, k, None))
+    if kinds is not None:
+        cases = [c for c in cases if c[1] in kinds]
     for cname, kind, chan in cases:
         it = rxf.interp()
         st = State()
@@ -763,6 +776,8 @@ def check_frame(res, facts):
             n += 1
     # (b) byte forwarding: every non-real-time byte reaches the parser unmodified exactly once
     classes = [('data', 0x00, 0x7F), ('channel-status', 0x80, 0xEF)] + [('0x%02X' % b, b, b) for b in range(0xF0, 0xF8)] + [('real-time', 0xF8, 0xFF)]
+    if kinds is not None:
+        classes = []
     for cname, lo, hi in classes:
         it = rxf.interp()
         st = State()
